@@ -134,6 +134,15 @@ def run_strings(shard, tier, seed):
                     continue
                 judge(r[1], ('text', cn, None), s)
                 c['text_positions_accepted'] += 1
+                e = r[1]
+                other = 'changed'
+                if lib.call(setattr, e, 'value_', other)[0] == 'ok':
+                    t2 = lib.call(e.to_string)
+                    twin = lib.call(cls, other, xsd_check=False)
+                    if t2[0] == 'ok' and twin[0] == 'ok':
+                        evals += 1
+                        if t2[1] != twin[1].to_string():
+                            v('earlier-serialisation-shows-after-value-change', ('text', cn, None), s, {'after': t2[1][:160]})
                 if len(samples) < 2 and s:
                     samples.append({'class': cn, 'position': 'text', 'string': s})
         if t in ref.ALL:
@@ -149,6 +158,16 @@ def run_strings(shard, tier, seed):
                         continue
                     judge(r[1], ('attribute', cn, an), s, attr=an)
                     c['attribute_positions_accepted'] += 1
+                    # serialise - mutate - serialise: the earlier serialisation must not show in the later one
+                    e = r[1]
+                    if lib.call(setattr, e, key, None)[0] == 'ok':
+                        t2 = lib.call(e.to_string)
+                        twin = lib.call(lambda: cls(dv, xsd_check=False) if dv is not None else cls(xsd_check=False))
+                        if t2[0] == 'ok' and twin[0] == 'ok':
+                            evals += 1
+                            if t2[1] != twin[1].to_string():
+                                v('earlier-serialisation-shows-after-attribute-removal', ('attribute', cn, an), s,
+                                  {'after_removal': t2[1][:160]})
     return {'evaluations': evals, 'distinct_nontrivial': nontriv, 'violations': viol, 'samples': samples,
             'counters': dict(c, stdio_events=len(lib.STDIO_EVENTS))}
 
